@@ -2,11 +2,11 @@
 // (child module `yaml::encoding::verif_kani`).
 use super::*;
 
-fn enc_code(e: &Encoding) -> u8 { match e { Encoding::Utf8 => 0, Encoding::Utf16Big => 1, Encoding::Utf32Big => 2, Encoding::Utf16Little => 3, Encoding::Utf32Little => 4 } }
+pub(crate) fn enc_code(e: &Encoding) -> u8 { match e { Encoding::Utf8 => 0, Encoding::Utf16Big => 1, Encoding::Utf32Big => 2, Encoding::Utf16Little => 3, Encoding::Utf32Little => 4 } }
 
 // YAML 1.2.2 section 5.2 table, transcribed row by row, first match wins (0 = UTF-8, 1 = UTF-16BE,
 // 2 = UTF-32BE, 3 = UTF-16LE, 4 = UTF-32LE).
-fn spec_detect(p: &[u8]) -> u8 {
+pub(crate) fn spec_detect(p: &[u8]) -> u8 {
 	let n = p.len();
 	let b = |i: usize| p[i];
 	if n >= 4 && b(0) == 0 && b(1) == 0 && b(2) == 0xFE && b(3) == 0xFF { return 2; } // UTF-32BE BOM
@@ -33,6 +33,22 @@ fn enc_detect_matches_yaml_spec() {
 	assert!(got == enc_code(&Encoding::detect(&b[..m])), "only the first four bytes matter");
 	assert!(Encoding::DETECT_LEN == 4);
 	kani::cover!(got == 0); kani::cover!(got == 1); kani::cover!(got == 2); kani::cover!(got == 3); kani::cover!(got == 4);
+}
+
+// ---- Kani's modular route: the same postcondition as a function contract on Encoding::detect -------------
+// The engine inserts, above `pub(super) fn detect` in the scratch copy (add-only, cfg_attr(kani)):
+//     #[kani::ensures(|r: &Encoding| verif_kani::enc_code(r) == verif_kani::spec_detect(prefix))]
+// `detect_function_contract` proves it; harnesses of callers may then use #[kani::stub_verified(Encoding::detect)]
+// and are checked against this contract instead of the body (yaml.rs: yaml_slice_fast_path_modular).
+impl kani::Arbitrary for Encoding {
+	fn any() -> Self { match kani::any::<u8>() % 5 { 0 => Encoding::Utf8, 1 => Encoding::Utf16Big, 2 => Encoding::Utf32Big, 3 => Encoding::Utf16Little, _ => Encoding::Utf32Little } }
+}
+#[kani::proof_for_contract(Encoding::detect)]
+fn detect_function_contract() {
+	let b: [u8; 6] = kani::any();
+	let n: usize = kani::any();
+	kani::assume(n <= 6);
+	Encoding::detect(&b[..n]);
 }
 
 // ---- a BufRead source that can fail, for the decoders ------------------------------------------------
